@@ -162,8 +162,8 @@ pub fn record(args: &[String]) {
         for _ in 0..(1 + r.below(len)) {
             let p = r.pick(POOL).to_string();
             let (cmd, a): (&str, Vec<String>) = match r.below(20) {
-                0..=2 => ("writefile", vec![p, "x".into()]),
-                3 | 4 => ("appendfile", vec![p, "x".into()]),
+                0..=2 => ("writefile", vec![p, if r.chance(1, 5) { String::new() } else { "x".into() }]),
+                3 | 4 => ("appendfile", vec![p, if r.chance(1, 4) { String::new() } else { "x".into() }]),
                 5 => ("write_binary", vec![p, "x".into()]),
                 6 => ("touch", vec![p]),
                 7 | 8 => ("mkdir", vec![p]),
